@@ -1,5 +1,5 @@
 (* C20: stacked flavours compose as byte-stream transformers. *)
-From PV Require Import Base MachineInt DataModel Ser De Cobs CobsRef Crc SerFlavors DeFlavors Sinks Thresholds CrcFacts Cobs Crc SerFlavors ModDecl GenModifiers ModInterp ModFacts.
+From PV Require Import Base MachineInt DataModel Ser De Cobs CobsRef Crc SerFlavors DeFlavors Sinks Thresholds CrcFacts Cobs Crc SerFlavors ModDecl GenModifiers ModInterp ModFacts StorageDecl GenStorages StorageInterp StorageFacts.
 Open Scope N_scope.
 
 (* checksum-then-COBS: the output is the COBS frame of (plain bytes followed by their
@@ -86,6 +86,53 @@ Theorem C20_modifiers_define_exactly :
   crc_de_entry_points_finalize_through_the_modifier = true.
 Proof. exact modifiers_define_exactly. Qed.
 
+(* the storages under the modifiers are the method bodies of ser/flavors.rs as read on this run
+   (GenStorages.v: which store operation each try_push / try_extend / finalize / index_mut
+   performs, on which argument, what becomes of its result, which error is reported),
+   interpreted over the documented behaviour of heapless::Vec, alloc's Vec, an Extend<u8> sink, a
+   usize counter and an io / embedded-io writer: on every state and every argument *)
+Theorem C20_hvec_is_the_source : forall cap v,
+  (forall b, sf_push (hvec_flavor cap) v b = unvec (run_method nm_HVec nm_try_push (SVec (Some cap) v) (AByte b))) /\
+  (forall bs, sf_extend (hvec_flavor cap) v bs = unvec (run_method nm_HVec nm_try_extend (SVec (Some cap) v) (ABytes bs))) /\
+  sf_finalize (hvec_flavor cap) v = unvec (run_method nm_HVec nm_finalize (SVec (Some cap) v) ANone) /\
+  (forall i b, sf_set (hvec_flavor cap) v i b = unvec (run_method nm_HVec_IndexMut nm_index_mut (SVec (Some cap) v) (ASet i b))).
+Proof. exact hvec_is_source. Qed.
+Theorem C20_allocvec_is_the_source : forall v,
+  (forall b, sf_push alloc_flavor v b = unvec (run_method nm_AllocVec nm_try_push (SVec None v) (AByte b))) /\
+  (forall bs, sf_extend alloc_flavor v bs = unvec (run_method nm_AllocVec nm_try_extend (SVec None v) (ABytes bs))) /\
+  sf_finalize alloc_flavor v = unvec (run_method nm_AllocVec nm_finalize (SVec None v) ANone) /\
+  (forall i b, sf_set alloc_flavor v i b = unvec (run_method nm_AllocVec_IndexMut nm_index_mut (SVec None v) (ASet i b))).
+Proof. exact allocvec_is_source. Qed.
+Theorem C20_extend_flavor_is_the_source : forall v,
+  (forall b, sf_push extend_flavor v b = unvec (run_method nm_ExtendFlavor nm_try_push (SIter v) (AByte b))) /\
+  (forall bs, sf_extend extend_flavor v bs = unvec (run_method nm_ExtendFlavor nm_try_extend (SIter v) (ABytes bs))) /\
+  sf_finalize extend_flavor v = unvec (run_method nm_ExtendFlavor nm_finalize (SIter v) ANone).
+Proof. exact extend_flavor_is_source. Qed.
+Theorem C20_size_is_the_source : forall n,
+  (forall b, sf_push size_flavor n b = unsize (run_method nm_Size nm_try_push (SSize n) (AByte b))) /\
+  (forall bs, sf_extend size_flavor n bs = unsize (run_method nm_Size nm_try_extend (SSize n) (ABytes bs))) /\
+  sf_finalize size_flavor n = unsize (run_method nm_Size nm_finalize (SSize n) ANone).
+Proof. exact size_is_source. Qed.
+Theorem C20_writers_are_the_source : forall w impl, impl = nm_io_Write \/ impl = nm_eio_Write ->
+  (forall b, sf_push writer_flavor w b = unwriter (run_method impl nm_try_push (SWriter w) (AByte b))) /\
+  (forall bs, sf_extend writer_flavor w bs = unwriter (run_method impl nm_try_extend (SWriter w) (ABytes bs))) /\
+  sf_finalize writer_flavor w = unwriter_out (run_method impl nm_finalize (SWriter w) ANone).
+Proof. exact writers_are_source. Qed.
+(* a flavour without its own try_extend (a user flavour, Cobs, CrcModifier) gets the trait's
+   default body: byte by byte through its own try_push *)
+Theorem C20_default_extend_is_the_source : forall push s bs,
+  storage_method nm_Flavor nm_try_extend = Some ODefaultExtend /\
+  run_sop push ODefaultExtend s (ABytes bs) = extend_by_push push s bs.
+Proof. exact default_extend_is_source. Qed.
+Theorem C20_storage_impls_define :
+  map (fun im => (fst im, map fst (snd im))) storage_methods =
+  [(nm_Flavor, [nm_try_extend]);
+   (nm_HVec, [nm_finalize; nm_try_extend; nm_try_push]); (nm_AllocVec, [nm_finalize; nm_try_extend; nm_try_push]);
+   (nm_ExtendFlavor, [nm_finalize; nm_try_extend; nm_try_push]); (nm_Size, [nm_finalize; nm_try_extend; nm_try_push]);
+   (nm_eio_Write, [nm_finalize; nm_try_extend; nm_try_push]); (nm_io_Write, [nm_finalize; nm_try_extend; nm_try_push]);
+   (nm_HVec_IndexMut, [nm_index_mut]); (nm_AllocVec_IndexMut, [nm_index_mut])].
+Proof. exact storage_impls_define. Qed.
+
 Print Assumptions C20_crc_inside_cobs.
 Print Assumptions C20_cobs_any_storage.
 Print Assumptions C20_crc_any_storage.
@@ -97,3 +144,10 @@ Print Assumptions C20_crc_try_push_is_the_source.
 Print Assumptions C20_crc_finalize_is_the_source.
 Print Assumptions C20_crc_de_is_the_source.
 Print Assumptions C20_modifiers_define_exactly.
+Print Assumptions C20_hvec_is_the_source.
+Print Assumptions C20_allocvec_is_the_source.
+Print Assumptions C20_extend_flavor_is_the_source.
+Print Assumptions C20_size_is_the_source.
+Print Assumptions C20_writers_are_the_source.
+Print Assumptions C20_default_extend_is_the_source.
+Print Assumptions C20_storage_impls_define.
